@@ -100,6 +100,13 @@ def schemas(tier):
     yield [P, {'id': '#k', 'name': [['pat', 'z'], ['pat', 'w']], 'cons': [[['z', [['pat', 'x']]], ['w', [['pat', 'y']]]], [['z', [['pat', 'y']]], ['w', [['pat', 'x']]]]], 'sign': []}]
 
 
+    # a key rule whose constraint lists a pattern option next to other options, signing a packet rule that binds that pattern and one that
+    # does not: the unbound option simply does not hold, the others still count
+    for opts in ([['pat', 'x'], ['lit', 'a']], [['lit', 'a'], ['pat', 'x']], [['pat', 'x'], ['fn', '$eq', [['lit', 'b']]]], [['pat', 'x'], ['pat', 'y']]):
+        k = {'id': '#k', 'name': [['lit', 'b'], ['pat', 'z']], 'cons': [[['z', opts]]], 'sign': []}
+        yield [{'id': '#p', 'name': [['lit', 'a'], ['pat', 'y']], 'cons': [], 'sign': ['#k']}, k,
+               {'id': '#q', 'name': [['lit', 'c'], ['pat', 'x']], 'cons': [], 'sign': ['#k']}]
+        yield [{'id': '#p', 'name': [['lit', 'a']], 'cons': [], 'sign': ['#k']}, k]
     yield from family_schemas()
 
 
@@ -152,12 +159,18 @@ def check_schema(schema, tier, acc=None):
     try:
         others.append(('loaded', Checker.load(ck.save(), FNS)))
         from ndn.app_support.light_versec.binary import LvsModel
+
         bare = LvsModel.parse(bytes(model.encode()))
         bare.symbols = []
         others.append(('no-symbols', Checker(bare, FNS)))
     except Exception as e:  # noqa
         bad(f'reload-raises:{type(e).__name__}@{tb_where(e)}', f'{e!r}')
         return 'reload-raises', viol
+    try:
+        # another checker of the same process, created last, gives the same function names another meaning: that is its own business
+        Checker.load(ck.save(), {k: (lambda c, args: False) for k in FNS})
+    except Exception as e:  # noqa
+        bad(f'reload-raises:{type(e).__name__}@{tb_where(e)}', f'{e!r}')
     ref = lvs_ref.RefSchema(schema, FNS)
     pool = FAMILY_POOL if schema[-1]['id'] == '#d' or schema[0]['id'] == '#d' or schema[-1]['name'][-1] == ['lit', 'b'] and len(schema[-1]['name']) == 3 else name_pool(tier)
     names = [(t, comp_name(t)) for t in pool]
